@@ -1,21 +1,241 @@
 package main
 
 import (
+	"bufio"
+	"encoding/json"
+	"flag"
 	"fmt"
 	"io"
 	"log"
 	"os"
+	"runtime/debug"
+	"sort"
+	"time"
 )
+
+type Summary struct {
+	T          string         `json:"t"`
+	Prop       string         `json:"prop"`
+	From       uint64         `json:"from"`
+	To         uint64         `json:"to"`
+	Cases      int            `json:"cases"`
+	Invalid    int            `json:"invalid"`
+	NonTrivial int            `json:"nontrivial"`
+	WithVerd   int            `json:"with_verdicts"`
+	Stats      RunStats       `json:"stats"`
+	Fired      [8]int         `json:"fired"`
+	Tags       map[string]int `json:"tags"`
+	Classes    map[string]int `json:"classes"`
+	Policies   map[string]int `json:"policies"`
+	NumCPUs    map[string]int `json:"numcpus"`
+	FPs        []string       `json:"fps"`
+	Samples    []Sample       `json:"samples"`
+	WallS      float64        `json:"wall_s"`
+	Stopped    string         `json:"stopped,omitempty"`
+}
+
+type Sample struct {
+	ID      string `json:"id"`
+	Class   string `json:"class"`
+	Program string `json:"program"`
+	Args    []Arg  `json:"args,omitempty"`
+	Host    any    `json:"host_tables,omitempty"`
+	Sim     SimCfg `json:"sim"`
+	Outcome string `json:"outcome"`
+	FP      string `json:"fingerprint"`
+}
+
+type fpLine struct {
+	T        string   `json:"t"`
+	ID       string   `json:"id"`
+	FP       string   `json:"fp"`
+	Verdicts []string `json:"verdicts,omitempty"`
+}
+
+func sampleOf(c *Case, o *Obs) Sample {
+	s := Sample{ID: o.ID, Class: o.Class, Sim: c.Sim, Outcome: trunc(o.Outcome, 80), FP: o.FP}
+	s.Sim.Decisions = nil
+	if sc, err := c.script(); err == nil {
+		var parts []string
+		for _, op := range sc.Setup {
+			if op.Kind == "gen" {
+				parts = append(parts, fmt.Sprintf("%q", trunc(op.text(), 240)))
+			}
+		}
+		if len(parts) > 3 {
+			parts = append(parts[:3], fmt.Sprintf("... (%d programs)", len(parts)))
+		}
+		s.Program = fmt.Sprint(parts)
+		if len(sc.Clients) > 0 && len(sc.Clients[0]) > 0 {
+			s.Args = sc.Clients[0][0].Args
+			for i := range s.Args {
+				if len(s.Args[i].L) > 8 {
+					s.Args[i].L = s.Args[i].L[:8]
+				}
+			}
+		}
+		if len(sc.Host.Costs)+len(sc.Host.Fails)+len(sc.Host.Booms) > 0 {
+			s.Host = sc.Host
+		}
+	}
+	return s
+}
+
+func emit(w *bufio.Writer, v any) {
+	b, err := json.Marshal(v)
+	if err != nil {
+		fmt.Fprintln(os.Stderr, "worker: marshal:", err)
+		os.Exit(2)
+	}
+	w.Write(b)
+	w.WriteByte('\n')
+	w.Flush()
+}
+
+func runMode(args []string) {
+	fs := flag.NewFlagSet("run", flag.ExitOnError)
+	prop := fs.String("prop", "", "property id")
+	tier := fs.String("tier", "quick", "quick|thorough")
+	seed := fs.Uint64("seed", 1, "base seed")
+	from := fs.Uint64("from", 0, "first run index")
+	to := fs.Uint64("to", 100, "one past the last run index")
+	maxWall := fs.Float64("maxwall", 0, "stop after this many seconds (0 = no limit)")
+	announce := fs.Bool("announce", false, "print a begin line before every case")
+	fplog := fs.Bool("fplog", false, "print one fingerprint line per case")
+	fs.Parse(args)
+	if *prop == "C05" {
+		debug.SetMaxStack(192 << 20)
+	}
+	w := bufio.NewWriterSize(os.Stdout, 1<<16)
+	sum := Summary{T: "sum", Prop: *prop, From: *from, To: *to, Tags: map[string]int{}, Classes: map[string]int{}, Policies: map[string]int{}, NumCPUs: map[string]int{}}
+	fps := map[string]bool{}
+	t0 := time.Now()
+	for i := *from; i < *to; i++ {
+		if *maxWall > 0 && time.Since(t0).Seconds() > *maxWall {
+			sum.Stopped = fmt.Sprintf("wall limit after %d cases", sum.Cases)
+			sum.To = i
+			break
+		}
+		c := genCase(*prop, *tier, *seed, i)
+		if *announce {
+			emit(w, map[string]any{"t": "begin", "id": c.ID, "class": c.Class})
+		}
+		o := exec(c)
+		sum.Cases++
+		if o.Invalid != "" {
+			sum.Invalid++
+			emit(w, map[string]any{"t": "invalid", "id": c.ID, "why": o.Invalid, "case": c})
+			continue
+		}
+		if o.NonTrivial {
+			sum.NonTrivial++
+			fps[o.FP] = true
+		}
+		sum.Stats.Runs += o.Stats.Runs
+		sum.Stats.Yields += o.Stats.Yields
+		sum.Stats.Decisions += o.Stats.Decisions
+		sum.Stats.SimTime += o.Stats.SimTime
+		sum.Stats.Tasks += o.Stats.Tasks
+		if o.Stats.MaxLive > sum.Stats.MaxLive {
+			sum.Stats.MaxLive = o.Stats.MaxLive
+		}
+		sum.Stats.Switches += o.Stats.Switches
+		sum.Stats.SelMulti += o.Stats.SelMulti
+		sum.Stats.PickMulti += o.Stats.PickMulti
+		sum.Stats.Timers += o.Stats.Timers
+		sum.Stats.Stalls += o.Stats.Stalls
+		sum.Stats.Preempts += o.Stats.Preempts
+		sum.Stats.Rendezv += o.Stats.Rendezv
+		for k, v := range o.Fired {
+			sum.Fired[k] += v
+		}
+		for _, t := range o.Tags {
+			sum.Tags[t]++
+		}
+		sum.Classes[o.Class]++
+		sum.Policies[c.Sim.Policy]++
+		sum.NumCPUs[fmt.Sprint(c.Sim.NumCPU)]++
+		if len(sum.Samples) < 3 && o.NonTrivial {
+			sum.Samples = append(sum.Samples, sampleOf(c, o))
+		}
+		if *fplog {
+			l := fpLine{T: "fp", ID: o.ID, FP: o.FP}
+			for _, v := range o.Verdicts {
+				l.Verdicts = append(l.Verdicts, v.Sig)
+			}
+			emit(w, l)
+		}
+		if len(o.Verdicts) > 0 {
+			sum.WithVerd++
+			emit(w, map[string]any{"t": "obs", "obs": o})
+		}
+	}
+	for k := range fps {
+		sum.FPs = append(sum.FPs, k)
+	}
+	sort.Strings(sum.FPs)
+	sum.WallS = time.Since(t0).Seconds()
+	emit(w, sum)
+}
+
+func serveMode() {
+	in := bufio.NewReaderSize(os.Stdin, 1<<20)
+	w := bufio.NewWriterSize(os.Stdout, 1<<16)
+	for {
+		line, err := in.ReadBytes('\n')
+		if len(line) > 1 {
+			var c Case
+			if e := json.Unmarshal(line, &c); e != nil {
+				emit(w, map[string]any{"t": "obs", "obs": Obs{Invalid: "bad case json: " + e.Error()}})
+			} else {
+				if c.Prop == "C05" {
+					debug.SetMaxStack(192 << 20)
+				}
+				emit(w, map[string]any{"t": "begin", "id": c.ID})
+				o := exec(&c)
+				emit(w, map[string]any{"t": "obs", "obs": o})
+			}
+		}
+		if err != nil {
+			if err != io.EOF {
+				fmt.Fprintln(os.Stderr, "worker: read:", err)
+			}
+			return
+		}
+	}
+}
+
+func genMode(args []string) {
+	fs := flag.NewFlagSet("gen", flag.ExitOnError)
+	prop := fs.String("prop", "", "property id")
+	tier := fs.String("tier", "quick", "quick|thorough")
+	seed := fs.Uint64("seed", 1, "base seed")
+	idx := fs.Uint64("i", 0, "run index")
+	fs.Parse(args)
+	c := genCase(*prop, *tier, *seed, *idx)
+	b, _ := json.Marshal(c)
+	fmt.Println(string(b))
+	if c.Pipe != nil {
+		t, err := c.Pipe.render()
+		fmt.Fprintln(os.Stderr, "text:", t, err)
+	}
+}
 
 func main() {
 	log.SetOutput(io.Discard)
 	if len(os.Args) < 2 {
-		fmt.Fprintln(os.Stderr, "usage: worker smoke|run|serve ...")
+		fmt.Fprintln(os.Stderr, "usage: worker smoke|run|serve|gen ...")
 		os.Exit(2)
 	}
 	switch os.Args[1] {
 	case "smoke":
 		smoke(os.Args[2:])
+	case "run":
+		runMode(os.Args[2:])
+	case "serve":
+		serveMode()
+	case "gen":
+		genMode(os.Args[2:])
 	default:
 		fmt.Fprintln(os.Stderr, "unknown mode", os.Args[1])
 		os.Exit(2)
